@@ -230,12 +230,17 @@ def run(ctx):
     # -- R13.4 ---------------------------------------------------------------------------------------
     ctx.rule("R13.4", "placeholder names are unique within the part")
     nm = prog.func("pptx.shapes.shapetree", "_BaseShapes._next_ph_name")
-    from checks.c06 import idiom_while_not_in
+    from checks.c06 import _stale_returns, idiom_while_in, idiom_while_not_in
 
     xp = [prog.const(n.args[0], nm.module) for n in walk_own(nm.node) if isinstance(n, ast.Call)
           and isinstance(n.func, ast.Attribute) and n.func.attr == "xpath" and n.args]
-    if "//p:cNvPr/@name" in xp and idiom_while_not_in(nm.node):
-        ctx.ok("R13.4", "_next_ph_name", sample={"population": "//p:cNvPr/@name", "idiom": "loop until name not in names"})
+    idiom = idiom_while_not_in(nm.node) or idiom_while_in(nm.node)
+    if "//p:cNvPr/@name" in xp and idiom and not _stale_returns(nm):
+        ctx.ok("R13.4", "_next_ph_name", sample={"population": "//p:cNvPr/@name", "idiom": idiom})
+    elif "//p:cNvPr/@name" in xp and not idiom and any(
+            isinstance(n, ast.Compare) and isinstance(n.ops[0], (ast.In, ast.NotIn)) for n in walk_own(nm.node)):
+        ctx.error("_BaseShapes._next_ph_name", "the candidate is tested against the names of the part, but not through a recognised "
+                  "uniqueness idiom (loop until / while the candidate is in the names)")
     else:
         ctx.violation("R13.4", "_next_ph_name", "name allocator does not loop until the candidate is absent from all names of the part",
                       file=nm.file, line=nm.line)
